@@ -6,6 +6,7 @@
   builder function (`size_le_limit`).
 -/
 import Rox.Lemmas.Size
+import Rox.Lemmas.LimitMono
 
 namespace Rox.Props.C15
 open Rox
@@ -40,5 +41,15 @@ example : (match parse ⟨[], [], [], [], [(97, 97)], [(97, 97)], [(0, 255)]⟩ 
     | .ok d => d.nodes.size | _ => 0) = 2 := by decide
 example : parse ⟨[], [], [], [], [(97, 97)], [(97, 97)], [(0, 255)]⟩ [60, 97, 47, 62] { nodesLimit := 1 }
     = .err .nodesLimitReached := by decide
+
+/-- **Monotone in the limit** (all inputs, all other options): unless the parse with limit `L` fails
+with `NodesLimitReached`, the parse with any larger limit `L'` — `u32::MAX`, the default, included
+— returns exactly the same result: the same document, or the same error. So raising the limit can
+only turn `NodesLimitReached` into something else, never change an accepted document or another
+error. -/
+theorem monotone (T : Tables) (txt : Bytes) (opt : Opt) (L L' : Nat) (hle : L ≤ L')
+    (h : parse T txt { opt with nodesLimit := L } ≠ .err .nodesLimitReached) :
+    parse T txt { opt with nodesLimit := L' } = parse T txt { opt with nodesLimit := L } :=
+  Rox.Lemmas.parse_limit_mono T txt opt L L' hle h
 
 end Rox.Props.C15
